@@ -108,4 +108,4 @@ def replay(ctx, case):
     if case.get('label') == 'real-contract':
         from rv.checks import _real as R
         return R.replay(ctx, PID, case, 'types')
-    K.run_case(ctx, PID, case.get('label', 'replay'), case['code'], K.env_from_json(case.get('env')), 'types', True)
+    K.run_case(ctx, PID, case.get('label', 'replay'), case['code'], K.env_from_json(case.get('env')), 'types', True, poison=case.get('poison'))
